@@ -116,6 +116,14 @@ def step (_ : Unit) (toks : List Val) (_impl : String) : Unit × Out :=
                tags := [s!"fill.iters={iters}"] })
       | .error e => ((), { model := e, tags := ["fill.panic"] })
     | none => bad
+  | [.w "insertalias", l, .i k] =>   -- InsertSlice at index len of values that alias the destination's spare capacity: the splice of the values as they were
+    match l.ints? with
+    | some xs =>
+      if k < 0 then unmodelled "insertalias.neg" else
+      let vs : List Int := (List.range k.toNat).map (fun i => (100 : Int) + (i : Nat))
+      let r := (ofInts (xs ++ vs)).render
+      ((), { model := r, spec := some r, tags := ["insertalias"] })
+    | none => bad
   | [.w "fillz", .i n, .i _kind] =>   -- Fill/Repeat at other element types (glue: per element "is the value filled in")
     if n < 0 then unmodelled "fillz.neg"
     else
